@@ -1,6 +1,7 @@
 """C09 - Machine-readable copyright files are recognised paragraph by paragraph."""
 import os
 import gendep5
+import cobs
 from gendep5 import normalize, valid_input  # noqa: F401
 from protocol import Exc
 from debian_inspector import copyright as cr
@@ -39,6 +40,7 @@ DATA = os.path.join(os.environ.get('VERIF_REPO', '/repo'), 'tests', 'data')
 
 def observe(op, inp):
     try:
+        cobs.prelude()
         c = cr.DebianCopyright.from_text(inp[2])
         return [gendep5.typed_obs(c), bool(c.is_valid())]
     except Exception as e:
